@@ -26,7 +26,7 @@ try_from borrow borrow_mut as_ref as_mut type_id to_string next size_hint count 
 filter filter_map enumerate peekable skip_while take_while map_while skip take scan flat_map flatten fuse inspect by_ref collect partition
 try_fold try_for_each fold reduce try_reduce all any find find_map try_find position rposition max min max_by_key max_by min_by_key min_by rev
 unzip copied cloned cycle sum product cmp partial_cmp lt le gt ge is_sorted next_back nth_back rfold rfind len is_empty hash'''.split())
-PRIM = {'u8', 'u16', 'u32', 'u64', 'u128', 'usize', 'i8', 'i16', 'i32', 'i64', 'i128', 'isize', 'f32', 'f64', 'char', 'bool', 'str'}
+PRIM = {'u8', 'u16', 'u32', 'u128', 'i8', 'i16', 'i32', 'i64', 'i128', 'isize', 'f32', 'f64', 'char', 'bool', 'str'}
 DROP_ATTRS = ('inline', 'allow', 'must_use', 'doc', 'deprecated', 'warn', 'deny(missing_docs', 'rustfmt')
 
 def text(toks):
@@ -169,7 +169,7 @@ def segment(toks, prefix, out, translated_lines, fnnames):
             if header[fi].line in translated_lines:
                 # the translation models every integer type as an unbounded-then-checked 64-bit value and spells casts out; the
                 # primitive type names a body mentions (annotations, casts, suffixes, turbofish) stay part of the skeleton
-                prim = [t.val for t in toks[j:k + 1] if t.kind == 'ident' and t.val in PRIM] + [t.suffix for t in toks[j:k + 1] if getattr(t, 'suffix', None)]
+                prim = [t.val for t in toks[j:k + 1] if t.kind == 'ident' and t.val in PRIM] + [t.suffix for t in toks[j:k + 1] if getattr(t, 'suffix', None) and t.suffix in PRIM]
                 body = '{… %s}' % ' '.join(prim) if prim else '{…}'
             else: body = text(toks[j:k + 1])
             out.append(prefix + atxt + htxt + ' ' + body)
